@@ -93,6 +93,8 @@ structure Env where
   reraiseLegacy : Bool
   /-- top of the `observation.exception_handling` stack has `reraise_exceptions=True` -/
   reraiseObserve : Bool
+  /-- the warning filters turn `UserWarning` into an exception (`-W error`) -/
+  warnError : Bool := false
 
 def heapGet (heap : List (Id × List Id)) (i : Id) : Option (List Id) :=
   (heap.find? (·.1 == i)).map (·.2)
@@ -157,6 +159,18 @@ def validateDefault (E : Env) (t : TraitCore) (v : Id) (c : Ctx) : Except Exc Id
     | (.ok w, c3) =>
       if testFlag t.flags Generated.TRAIT_SETATTR_ORIGINAL_VALUE then (.ok v, c3) else (.ok w, c3)
 
+/-- `_warn_on_attribute_error(result)` (ctraits.c:1794-1838), applied to the result
+of the two default kinds that call user code: an `AttributeError` raised by the
+default computation makes Traits issue a `UserWarning` ("default value resolution
+raised an AttributeError").  Under the usual warning filters the warning is
+reported and the `AttributeError` is restored and passed through; when warnings
+are errors the `UserWarning` (whose `__cause__` is the `AttributeError`) is raised
+INSTEAD — the one path where a raising default is not passed through unchanged.
+Every other exception is passed through unchanged. -/
+def warnOnAttributeError (E : Env) : Except Exc Id → Except Exc Id
+  | .error .attributeError => if E.warnError then .error .other else .error .attributeError
+  | r => r
+
 /-- `default_value_for(trait, obj, name)` (ctraits.c:1840-1913). -/
 def defaultValueFor (E : Env) (t : TraitCore) (obj : Id) (name : Name) (c : Ctx) : Except Exc Id × Ctx :=
   if t.dvt = Generated.CONSTANT_DEFAULT_VALUE ∨ t.dvt = Generated.MISSING_DEFAULT_VALUE then
@@ -171,13 +185,16 @@ def defaultValueFor (E : Env) (t : TraitCore) (obj : Id) (name : Name) (c : Ctx)
     match c.copyOf (t.dv.getD noneId) with
     | (i, c') => (.ok i, c')
   else if t.dvt = Generated.CALLABLE_AND_ARGS_DEFAULT_VALUE then
-    -- PyObject_Call(dv[0], dv[1], dv[2])
-    callFactory E (t.dv.getD noneId) obj name noneId c
+    -- PyObject_Call(dv[0], dv[1], dv[2]); _warn_on_attribute_error(result)
+    match callFactory E (t.dv.getD noneId) obj name noneId c with
+    | (r, c1) => (warnOnAttributeError E r, c1)
   else if t.dvt = Generated.CALLABLE_DEFAULT_VALUE then
-    -- result = default_value(obj); then validate
+    -- result = default_value(obj); then validate; _warn_on_attribute_error(result)
     match callFactory E (t.dv.getD noneId) obj name obj c with
-    | (.error e, c1) => (.error e, c1)
-    | (.ok v, c2) => validateDefault E t v c2
+    | (.error e, c1) => (warnOnAttributeError E (.error e), c1)
+    | (.ok v, c2) =>
+      match validateDefault E t v c2 with
+      | (r, c3) => (warnOnAttributeError E r, c3)
   else
     -- DISALLOW_DEFAULT_VALUE: ValueError("default value not permitted for this trait")
     (.error .valueError, c)
